@@ -9,8 +9,12 @@ TB = ("trusted base: the hand-written oracles in /verif/vh (TS/Zod parser, resol
 
 CHECKS = {
  # id: (category, technique, text, design_ref)
+ "C01": ("exploration", "runtime monitor: every file the real CLI writes is parsed by a strict hand-written TS/Zod parser with error recovery; user strings round-tripped through literal decoding",
+         "held on everything observed: ~1 400 atomic probes (name class x position) x 2 modes plus all type-expression chains to depth 2 (quick) / 3 (thorough) at five sites; oracle self-tested on positive/negative corpora each run", "4 C01"),
  "C05": ("exploration", "runtime monitor: real CLI on generated projects; every emitted type parsed by the TS/Zod oracle and compared with the reference denotation M (re-validated against real serde_json each run)",
          "held on everything observed: all chains of 18 constructor slots over 7 leaves to depth 2 (quick) / 3 (thorough) at the five sites in both modes, every primitive spelling, seeded deeper trees; mismatches equal to a recorded defect model are KNOWN-FINDINGs, anything else is a VIOLATION", "4 C05"),
+ "C06": ("translation_validation", "runtime monitor: identical struct/enum definitions compiled against real serde_derive/serde_json (oracle crate) and fed to the real CLI; decoded keys/literals compared name by name",
+         "per generated definition the emitted key/literal list equals what serde_json actually printed; 9 rename_all x 18 field-attribute variants x 13 identifier shapes (fields) and 6 variant-attribute variants x 10 shapes (variants); 1 oracle build in quick, 8 in thorough", "4 C06"),
  "C20": ("exploration", "runtime monitor: real ordering routines driven over enumerated graphs, each result judged by a closure/SCC oracle; crash = replayed and bisected",
          "held on every call observed: exhaustive over all digraphs (self-loops included) on <=3 nodes in quick and <=4 nodes in thorough, x all requested subsets x repeated fresh hash seeds, plus random graphs to 12 nodes; evidence reports distinct result orders seen per case", "4 C20"),
 }
